@@ -39,6 +39,7 @@ PROPS = {
         exhaustive_in_thorough=False,
     ),
     "C16": dict(
+        compare_on_known=True,  # the views compared are independent of the recorded findings: a finding never masks a divergence
         streams=[dict(mode="annot", quick=40000, thorough=600000, workers=12),
                  dict(mode="proj", quick=140, thorough=1500, workers=14, env={"VH_TYPES": "1", "VH_COMMENT_SITES": "1"})],
         rule="comment blocks of 1-8 lines printed as the doc comment of a real Go func (indent, preceding lines varied), parsed by go/parser and gast.MapDocListToCommentBlock: grammar-generated annotation lines (15 names, values over the whole class incl. spaces/braces/backslash, nested JSON5 objects/arrays/strings containing } ) , }) , unquoted keys, trailing commas, single quotes, tab/space separators, unicode descriptions, trailing blanks), 8% malformed JSON5, 8% near-miss lines, 12% free text, 8% rune-level mutations; every generated line carries the generator's intent so the round trip is checked against what was written, not against the model; non-trivial = the block contains at least one line the model parses as an attribute; distinct = distinct block; the `proj` stream prints type-graph projects with ONE annotation line (half of them with a JSON5 object that does not parse) in the doc comment of a controller, a route method, a declaration, a struct field or an enum constant and runs the real pipeline: where the construct is one gleece reads (controllers, routes, declarations reached from a route per the C07 closure model, their JSON-visible fields and constants) a malformed line must fail the run and a well-formed one must not",
@@ -145,6 +146,7 @@ PROPS = {
         assumptions=[],
     ),
     "C10": dict(
+        compare_on_known=True,  # the views compared are independent of the recorded findings: a finding never masks a divergence
         streams=[dict(mode="proj", quick=252, thorough=2400, workers=14, driver_workers=4, timeout=1800)],
         rule=PROJ_RULE + "; the multiset of (controller, receiver, code, severity) of the real diagnostics is compared with the model's and the property's `wellLinked` is evaluated against the real verdict for every route; non-trivial = at least one route; distinct = distinct project",
         trusted_base=COMMON_TB + ["model Gleece/Model/Validate.lean is hand-written; the annotation table and HTTP tables are regenerated from the harness build of /repo (configuration.ValidatorConfigMap, definitions.Get*); tie = exact multiset equality of diagnostics on every generated project",
@@ -154,6 +156,7 @@ PROPS = {
         assumptions=["no user type embeds error in generated projects (errorEmbedders = [])"],
     ),
     "C18": dict(
+        compare_on_known=True,  # the views compared are independent of the recorded findings: a finding never masks a divergence
         streams=[dict(mode="proj", quick=252, thorough=2400, workers=14, driver_workers=4, timeout=1800)],
         rule=PROJ_RULE + ", printed at indent '' or tab, several controllers per file and methods spread over a.go/b.go/c.go; for every real diagnostic the harness slices the real source by the reported range; checked: file, range inside the file and inside the entity's comment+declaration, start<=end, covered text for value / url-parameter diagnostics, no duplicate in the list nor in the error text, codes+severities = validator model; non-trivial = at least one diagnostic; distinct = distinct project",
         trusted_base=COMMON_TB + ["token.FileSet positions and gast.MapDocListToCommentBlock are exercised, not modelled (byte columns for the comment start, rune offsets inside the comment)",
@@ -162,7 +165,7 @@ PROPS = {
         assumptions=["`covers text equal to that value` is read literally: GetValueRange takes the FIRST occurrence of the value text in the comment"],
     ),
     "C13": dict(
-        streams=[dict(mode="proj", quick=28, thorough=600, workers=14, driver_workers=2, timeout=3000, env={"VH_DETERMINISM": "1", "VH_VALID_ONLY": "1"})],
+        streams=[dict(mode="proj", quick=28, thorough=210, workers=14, driver_workers=2, timeout=14000, env={"VH_DETERMINISM": "1", "VH_VALID_ONLY": "1"})],
         rule="well-formed generated projects (several controllers, methods spread over files a.go/b.go/c.go, types in two packages); for each, FIVE brand-new sessions (LoadGleeceConfig, pipeline.Run, routes.GenerateRoutes, swagen.GenerateSpec) per OpenAPI version plus one per engine: the byte contents of the routes file and of the spec are collected; Go randomises every map iteration, so each session samples new iteration orders of facade.files, the graph's node map and the sets; non-trivial = accepted project; distinct = distinct project",
         trusted_base=COMMON_TB + ["Go's own randomisation of map iteration is the source of order variation (no injection hooks)", "translator harness/cmd/vh/extract_order.go for the position of the sorts",
                                   "translator harness/cmd/vh/extract_cmp.go: the expressions every slices.SortFunc / SortStableFunc comparator hands to strings.Compare / cmp.Compare (Generated/Comparators.lean); the key order (bytewise string comparison) is a parameter of the theorems, assumed total, transitive and antisymmetric"],
@@ -179,6 +182,7 @@ PROPS = {
         assumptions=[],
     ),
     "C20": dict(
+        compare_on_known=True,  # the views compared are independent of the recorded findings: a finding never masks a divergence
         streams=[dict(mode="cfg", quick=24, thorough=400, workers=8, driver_workers=1, timeout=3000)],
         rule="configuration documents run through the REAL command (cmd.GenerateSpecAndRoutes) next to a fixed two-controller project: the valid base; every deletion of a section / field; every listed value of every constrained field (all engines, both OpenAPI versions, 19 permission strings, URL / e-mail / scheme / letter corruptions, glob sets); ill-typed members; random double corruptions (quick/thorough count); a malformed document; the empty object. Compared: the (field, tag) rejection reports in order; nothing written when rejected; paths + file modes + package clause + engine + openapi + info/servers/securitySchemes + contributing controllers when accepted; PermissionStringToFileMod on the configured string. non-trivial = a rejection or a completed generation; distinct = distinct document",
         trusted_base=COMMON_TB + ["ConfigSchema translator (reflection over definitions.GleeceConfig in the harness build of /repo)", "go-playground's own url / email / filepath predicates and unicode.IsLetter for non-ASCII first characters are model parameters, evaluated by the harness with the same library", "glob matcher of the driver (`*` within one segment only; the generated globs use nothing else)", "umask cleared by the harness while the command runs"],
@@ -186,6 +190,7 @@ PROPS = {
         assumptions=[],
     ),
     "C07": dict(
+        compare_on_known=True,  # the views compared are independent of the recorded findings: a finding never masks a divergence
         streams=[dict(mode="proj", quick=70, thorough=1500, workers=14, driver_workers=2, timeout=3000, env={"VH_TYPES": "1", "VH_STD_ENUM": "1"})],
         rule="type-graph projects printed as real Go source and run through the real pipeline: 2-10 declarations over three packages (structs with fields over primitives, time.Time, []byte, any, earlier types and the struct itself behind pointers / slices / string-keyed maps nested up to depth 3, embedded structs by value and by pointer, every spelling of the json tag, unexported fields, validate tags; enums of every basic kind with decoy constants of other types; typedef and assigned aliases, alias of alias), 1-2 controllers using a random subset as body / result / query / header / path / form parameters with and without usage-site validators (oneof on enum types) and descriptions; unused types stay. Compared for BOTH documents: the component key set (= reachable declarations + Rfc7807Error iff a route returns a plain error), the closure spec (roots present, closed, nothing unreachable) on the implementation's own key set, and every component's canonical structure (title, description, type, format, $ref, items, additionalProperties, properties, required, allOf, enum members as text). non-trivial = accepted project with at least one component; distinct = distinct project",
         trusted_base=COMMON_TB + ["parseTExpr / tagValue (driver): Go type text and struct tags of the GENERATED sources to the model's TExpr / Field", "canonComponent (driver): projection of a schema to its structural keywords; numeric / boolean enum members compared as text (3.0 renders them as strings: C08-F1 / C11-F2)"],
@@ -193,6 +198,7 @@ PROPS = {
         assumptions=[],
     ),
     "C09": dict(
+        compare_on_known=True,  # the views compared are independent of the recorded findings: a finding never masks a divergence
         streams=[dict(mode="rig", quick=16, thorough=200, workers=8, driver_workers=1, timeout=3000)],
         rule="rig projects (1-2 controllers x 2-5 routes; path / query / header / form / body parameters of every integer width, bool, string, string enum, pointers, query slices; aliased wire names; 0-2 security alternatives at method / controller / default level; hidden routes; context parameters; one project in twelve carries a route text no Go string literal can hold) rendered by the real generator for ALL FIVE engines, then COMPILED together with the printed project, a recording package and an authorization package per engine (`go build`); checked per engine: generation result, file written, go/parser accepts it, package clause = configured name, format.Source fixed point, and the build of the whole module; a refused generation must leave no file. non-trivial = every case; distinct = distinct project",
         trusted_base=COMMON_TB + ["the Go toolchain (go build, go/parser, go/format) is the oracle for `compilable`", "PipelineOrder translator for the GenerateRoutes skeleton"],
